@@ -283,7 +283,17 @@ def run(ch, config, res):
 
     with world:
         client = world.new_client()
-        failure = attempt(client, "op#0", announced)
+        # in some STARTTLS runs the server answers the handshake with a refusal instead of a new capability listing: then
+        # nothing is announced on this connection and nothing qualifies, whatever was announced in clear text
+        refused_caps = False
+        if use_tls:
+            with ch.scope("tls"):
+                refused_caps = ch.srv.flag("postcaps_refused", 1, 5)
+        if refused_caps:
+            srv.postcaps_hook = lambda conn: "no"
+            res.count("fault:post-tls-listing-refused")
+        failure = attempt(client, "op#0", None if refused_caps else announced)
+        srv.postcaps_hook = None
         if failure is None:
             # a second connection from the same object to a server that now announces something else: nothing learnt
             # from the first connection may leak into the second
